@@ -259,6 +259,30 @@ func (c *Case) sharedSlots() int {
 	return n
 }
 
+// hasPar says whether some compute function starts goroutines.
+func (c *Case) hasPar() bool {
+	var walk func([]Op) bool
+	walk = func(p []Op) bool {
+		for _, o := range p {
+			if o.Kind == "par" || walk(o.Body) {
+				return true
+			}
+			for _, b := range o.Branches {
+				if walk(b) {
+					return true
+				}
+			}
+		}
+		return false
+	}
+	for _, r := range c.RRs {
+		if walk(r.Prog) {
+			return true
+		}
+	}
+	return false
+}
+
 func (c *Case) shape() string {
 	depth := 0
 	var walk func([]Op, int)
